@@ -1371,11 +1371,15 @@ class Emitter:
             if name == "vf_assume":
                 out.append("  VF_ASSUME(%s);" % self.value(argv[0]))
             elif name == "vf_assert":
-                out.append("  VF_ASSERT(%s, %s);" % (self.value(argv[0]), self.cstring_of(argv[1])))
+                try: msg = self.cstring_of(argv[1])
+                except NotEncoded: msg = '"assertion (two source assertions merged by the optimiser)"'
+                out.append("  VF_ASSERT(%s, %s);" % (self.value(argv[0]), msg))
             elif name == "vf_observe":
                 out.append("  VF_OBSERVE((uint64_t)%s);" % self.value(argv[0]))
             elif name == "vf_witness":
-                out.append("  VF_WITNESS(%s);" % self.cstring_of(argv[0])[1:-1].join(['"', '"']))
+                try: msg = self.cstring_of(argv[0])
+                except NotEncoded: msg = '"reachability points merged by the optimiser"'
+                out.append("  VF_WITNESS(%s);" % msg)
             else:
                 decl(I.res, rty)
                 out.append("  %s = (%s)vf_nondet_u64();" % (self.lname(I.res), self.ctype(rty)))
